@@ -79,11 +79,59 @@ def family():
     return c
 
 
+def canonical(rep, presigned=False):
+    """rsx precise mode: the canonical request / string to sign equal the specification's on every path"""
+    import time
+    import sigbuild
+    from genops import rsx
+    t0 = time.time()
+    try:
+        problems, n_paths = sigbuild.check_canonical(rep, presigned=presigned)
+        bad, want = sigbuild.check_string_to_sign(rep) if not presigned else ([], "")
+        ub, un = sigbuild.check_uri_encode_byte(rep) if not presigned else ([], 0)
+        if not presigned:
+            if ub:
+                res = rep.violation("canon:uri-encode", "uri_encode: %s" % ub[0], rep.save_cex("uri_encode", ub), confirmed=family_deviates(rep, False))
+                rep.obligation("uri_encode per byte", "rsx+z3", res, 0)
+            else:
+                rep.obligation("uri_encode encodes every byte value (0..255, both slash modes) as AWS UriEncode prescribes (%d paths)" % un,
+                               "rsx+z3(bit-vectors)", "holds", 0, queries=un)
+    except (rsx.Unsupported, rsx.PathBudget) as u:
+        rep.fail_inconclusive("canonical request (precise mode): %s" % u)
+        return
+    what = "presigned canonical request" if presigned else "canonical request"
+    if bad:
+        problems["canon:string-to-sign"] = "create_string_to_sign builds %s, the specification prescribes %s" % (bad[0][:300], want[:300])
+    for k, w in problems.items():
+        conf = k == "v4:dup-query-unsorted" or family_deviates(rep, presigned)
+        res = rep.violation(k, w, rep.save_cex("canon_" + "".join(c if c.isalnum() else "_" for c in k)[:50], {"what": w}), confirmed=conf)
+        rep.obligation("%s: %s" % (what, k), "rsx(precise)+z3", res, time.time() - t0)
+    if not [k for k in problems if k != "v4:dup-query-unsorted"]:
+        rep.obligation("%s equals the AWS specification's on every path (%d paths: 0-2 query pairs incl. equal names, 0-3 signed headers incl. repeated "
+                       "names and 'authorization', all payload modes; symbolic strings; uri_encode / value canonicaliser / SHA-256 uninterpreted)%s" % (
+                           what, n_paths, "" if presigned else "; string to sign likewise"), "rsx(precise)+z3", "holds", time.time() - t0, queries=n_paths)
+
+
+def family_deviates(rep, presigned):
+    """native confirmation of a canonicalisation counterexample: some reference-signed request of the family is judged wrongly"""
+    from vlib import replay
+    import C06
+    fam = C06.family() if presigned else family()
+    outs = replay.run_scenarios([{"config": sigprops.CFG, "request": c[2]} for c in fam])
+    rep.traces_validated += len(fam)
+    for c, o in zip(fam, outs):
+        oc = sigprops.outcome(o)
+        if c[0] != "v4:dup-query-unsorted" and oc["accepted"] != c[3].get("accept"):
+            return True
+    return False
+
+
 def run(rep, tier):
     rep.encoded("crates/s3s/src/ops/signature.rs", "SignatureContext::check, v4_check, v4_check_header_auth (all paths)")
     rep.encoded("crates/s3s/src/sig_v4/amz_date.rs", "AmzDate::parse, to_time (Kani)")
     rep.encoded("crates/s3s/src/sig_v4/amz_content_sha256.rs", "AmzContentSha256::parse (Kani)")
     rep.encoded("crates/s3s/src/sig_v4/methods.rs", "create_canonical_request, create_string_to_sign, calculate_signature (family only)")
+    canonical(rep, presigned=False)
     sigprops.check_paths(rep, "v4-header", "C05 paths")
     kspec.run_spec(rep, "C05", tier, budget_s=300)
     sigprops.run_family(rep, "C05", family(), label="sigv4-header family")
